@@ -143,12 +143,27 @@ E2E = st.tuples(st.lists(ENTRY, max_size=12, unique_by=lambda e: e[0]), NOW, st.
                 st.booleans(), st.integers(0, 3))
 
 
-def make_sized_backend(sizes):
+# permission bits as real file systems have them, incl. set-uid / set-gid / sticky with and without the execute bit
+# (ls prints s/S and t/T for them)
+FILE_PERMS = [None, 0o644, 0o755, 0o4755, 0o2755, 0o4644, 0o2644, 0o1644, 0o1755, 0o7777, 0o7666, 0o000, 0o600]
+DIR_PERMS = [None, 0o755, 0o1777, 0o1776, 0o2775, 0o2765, 0o4755, 0o700]
+
+
+def perm_for(isdir, size, delta):
+    pool = DIR_PERMS if isdir else FILE_PERMS
+    return pool[(size + delta) % len(pool)]
+
+
+def make_sized_backend(sizes, perms=None):
+    perms = perms or {}
+
     class SizedMemory(aioftp.MemoryPathIO):
         async def stat(self, path):
             s = await super().stat(path)
             if path.name in sizes and statmod.S_ISREG(s.st_mode):
                 s = s._replace(st_size=sizes[path.name])
+            if perms.get(path.name) is not None:
+                s = s._replace(st_mode=statmod.S_IFMT(s.st_mode) | perms[path.name])
             return s
 
     return SizedMemory
@@ -159,7 +174,7 @@ async def _e2e(loop, entries, now, backend, listonly, tmp, result):
     sizes = {}
     if backend == "mem":
         sizes = {name: size for name, isdir, size, _ in entries if not isdir}
-        fac = make_sized_backend(sizes)
+        fac = make_sized_backend(sizes, {name: perm_for(isdir, size, delta) for name, isdir, size, delta in entries})
         users = [aioftp.User()]
     else:
         fac = aioftp.PathIO
@@ -191,6 +206,8 @@ async def _e2e(loop, entries, now, backend, listonly, tmp, result):
             else:
                 with open(full, "wb") as fh:
                     fh.write(b"z" * (size % 3000))
+            if perm_for(isdir, size, delta) is not None:
+                os.chmod(full, perm_for(isdir, size, delta))
             os.utime(full, (mtime, mtime))
             st_ = os.stat(full)
             truth[name] = ("dir" if isdir else "file", st_.st_size, mtime)
@@ -285,5 +302,35 @@ def replay_e2e(case):
         check_e2e(Ctx(PROPERTY, "e2e", "quick", 0, 0, 1), tuple(case), z)
 
 
+# ---------------------------------------------------------------- every mode string the server can print is parsed (exhaustive)
+def part_modes(ctx):
+    """All 7 x 4096 (file type, permission bits) values: the line the server builds with stat.filemode must be accepted by the
+    client's parser with the same type class (a rejected line makes the whole listing fail)."""
+    import stat as st_
+    c = aioftp.Client(path_io_factory=aioftp.MemoryPathIO)
+    types = [st_.S_IFREG, st_.S_IFDIR, st_.S_IFLNK, st_.S_IFBLK, st_.S_IFCHR, st_.S_IFIFO, st_.S_IFSOCK]
+    for t in types[ctx.shard::ctx.nshards]:
+        for perm in range(0o10000):
+            fm = st_.filemode(t | perm)
+            line = (fm + " 1 none none 5 Jan  1  2020 name" + (" -> target" if t == st_.S_IFLNK else "")).encode()
+            ctx.count(("modes", t, perm), bool(perm & 0o7000), sample=dict(mode_string=fm), classes=["modes"])
+            try:
+                p, info = c.parse_list_line(line + b"\r\n")
+            except ValueError as e:
+                ctx.fail("C07/modes/server_mode_string_rejected_by_client/" + fm[3] + fm[6] + fm[9], dict(kind="modes", mode=t | perm),
+                         dict(mode_string=fm, error=repr(e)[:200]))
+                continue
+            exp_type = {st_.S_IFDIR: "dir", st_.S_IFREG: "file", st_.S_IFLNK: "file"}.get(t)  # devices, fifos, sockets: "unknown"
+            if str(p) != "name" or (exp_type is not None and info["type"] != exp_type):
+                ctx.fail("C07/modes/wrong_name_or_type", dict(kind="modes", mode=t | perm), dict(mode_string=fm, got=[str(p), info["type"]]))
+
+
+def replay_modes(case):
+    import stat as st_
+    fm = st_.filemode(case["mode"])
+    aioftp.Client(path_io_factory=aioftp.MemoryPathIO).parse_list_line(
+        (fm + " 1 none none 5 Jan  1  2020 name" + (" -> target" if st_.S_ISLNK(case["mode"]) else "") + "\r\n").encode())
+
+
 def plan(tier):
-    return [("plane", 8), ("e2e", 8)]
+    return [("plane", 8), ("e2e", 8), ("modes", 7)]
